@@ -24,6 +24,7 @@ type c03Req struct {
 	bodyKind    string // "body", "app", "raw", "stream", "sw", "none"
 	decl, act   int    // stream sizes
 	hdrs        [][2]string
+	rmode       string      // behaviour of the stream's reader (conn.go srd=)
 	framing     [][2]string // framing fields the handler sets by hand (the server manages them: they must not reach the wire as extra fields)
 	cookies     [][2]string
 	skip        bool
@@ -46,6 +47,9 @@ func (q c03Req) wire(i int) []byte {
 		v.Set("raw", q.body)
 	case "stream":
 		v.Set("stream", fmt.Sprintf("%d:%d", q.decl, q.act))
+		if q.rmode != "" {
+			v.Set("srd", q.rmode)
+		}
 	case "sw":
 		v.Set("sw", strconv.Itoa(q.act))
 	}
@@ -108,6 +112,9 @@ func decodeC03(a [][]byte) []c03Req {
 				q.cookies = append(q.cookies, [2]string{k, v})
 			}
 		}
+		if len(f) > 12 {
+			q.rmode = f[12]
+		}
 		if len(f) > 11 {
 			for _, h := range strings.Split(f[11], "\x1e") {
 				if k, v, ok := strings.Cut(h, "="); ok {
@@ -123,7 +130,7 @@ func decodeC03(a [][]byte) []c03Req {
 func init() {
 	Register(&Prop{
 		ID: "C03", NoShrink: true,
-		Rule: "pipelines of 1..4 requests (GET/HEAD/POST x HTTP/1.0 keep-alive/1.1) whose handlers build the response by generated programs: every status 200..999 (each once with a body and a following request; 204/304 weighted), status message, added headers (repeated names), framing fields set by hand in several letter cases (header normalising on and off), cookies, " +
+		Rule: "pipelines of 1..4 requests (GET/HEAD/POST x HTTP/1.0 keep-alive/1.1) whose handlers build the response by generated programs: every status 200..999 (each once with a body and a following request; 204/304 weighted), status message, body streams behind readers of every contract-conforming behaviour (WriterTo, plain, final bytes with io.EOF, one byte per Read, zero-length reads), added headers (repeated names), framing fields set by hand in several letter cases (header normalising on and off), cookies, " +
 			"body set/append/raw, SetBodyStream with declared size exact / short / long (by more than a buffer) / unknown, SetBodyStreamWriter, SkipBody; the wire is parsed with net/http.ReadResponse (the independent parser) knowing the request methods; " +
 			"non-trivial = some response carries a body or a stream; distinct = distinct input",
 		Parallel: true,
@@ -295,6 +302,12 @@ func init() {
 							val = r.Pick([]string{"5", "0", "33", "1000"})
 						}
 						q = append(q, name+"="+val)
+					}
+					if q[5] == "stream" && r.Chance(60) {
+						for len(q) < 12 {
+							q = append(q, "")
+						}
+						q = append(q, r.Pick([]string{"p", "e", "e", "1", "z"}))
 					}
 					args = append(args, B(strings.Join(q, "\x1f")))
 				}
